@@ -1,4 +1,189 @@
 import OsloModel.Proto
+import OsloModel.Wrapper
+open Oslo Oslo.Insp Oslo.Proto
 
--- stub: replaced by the real driver of this property group
-def main : IO Unit := Oslo.Proto.serve (fun _ => "bad-request")
+/-! Line-protocol driver for the inspector group (C01, C02, C03, C05, C06, C07). -/
+
+def adler32 (b : Bytes) : Nat :=
+  let (a, s) := b.foldl (fun (p : Nat × Nat) x =>
+    let a := (p.1 + x.toNat) % 65521
+    (a, (p.2 + a) % 65521)) (1, 0)
+  s * 65536 + a
+
+def showErr : Err → String
+  | .imageFormat => "ImageFormatError" | .struct => "error" | .key => "KeyError"
+  | .runtime => "RuntimeError" | .value => "ValueError" | .fuel => "FUEL"
+
+def showOptErr : Option Err → String
+  | none => "-" | some e => showErr e
+
+def showB (b : Bool) : String := if b then "1" else "0"
+
+def showRegion (p : String × Region) : String :=
+  let r := p.2
+  s!"{p.1}:{r.offset}:{r.length}:{match r.minLength with | some m => toString m | none => "N"}:{r.data.length}:{adler32 r.data}:{showB r.complete}"
+
+def showState (s : Insp) : String :=
+  s!"total={s.total} regions=[{String.intercalate "," (s.regions.map showRegion)}]"
+
+def showExB : Except Err Bool → String
+  | .ok b => showB b | .error e => "EXC:" ++ showErr e
+def showExI : Except Err Int → String
+  | .ok v => toString v | .error e => "EXC:" ++ showErr e
+
+def showSafety : Safety → String
+  | .ok => "ok" | .refused => "refused"
+  | .failed ns => "failed:" ++ String.intercalate "+" ns
+  | .raised e => "EXC:" ++ showErr e
+
+def showVerdict (s : Insp) (e : Option Err) : String :=
+  s!"match={showExB (formatMatch s)} complete={showB s.complete} vsize={showExI (virtualSize s)} safety={showSafety (safetyCheck s)} raised={showOptErr e} ctx={s.retained}"
+
+def parseNats (s : String) : Option (List Nat) :=
+  if s = "-" then some [] else (s.splitOn ",").mapM String.toNat?
+
+def cut (b : Bytes) : List Nat → List Bytes
+  | [] => []
+  | n :: ns => b.take n :: cut (b.drop n) ns
+
+/-- content field: either hex bytes or `z<N>` (N zero bytes) or several joined with `+` -/
+def parseContent (s : String) : Option Bytes :=
+  if s = "-" then some [] else
+  (s.splitOn "+").foldlM (fun acc part =>
+    match part.toList with
+    | 'z' :: rest => (String.ofList rest).toNat?.map (fun n => acc ++ List.replicate n 0)
+    | 'r' :: rest =>   -- r<N>x<HH>: N copies of byte HH
+      match (String.ofList rest).splitOn "x" with
+      | [n, h] => do
+        let n ← n.toNat?
+        let hb ← unhex h
+        match hb with
+        | [x] => some (acc ++ List.replicate n x)
+        | _ => none
+      | _ => none
+    | _ => (unhex part).map (acc ++ ·)) []
+
+/-- feed with a trace after every chunk -/
+def feedTrace : Insp → List Bytes → List String → Insp × Option Err × List String
+  | s, [], tr => (s, none, tr.reverse)
+  | s, c :: cs, tr =>
+    match eatChunk s c with
+    | (s1, some e) => (s1, some e, ((showState s1 ++ " err=" ++ showErr e) :: tr).reverse)
+    | (s1, none) => feedTrace s1 cs (showState s1 :: tr)
+
+def showFmtRes : Except Err (Option Insp) → String
+  | .error e => "EXC:" ++ showErr e
+  | .ok none => "None"
+  | .ok (some i) => i.fmt.name
+
+def showFmtsRes : Except Err (Option (List Insp)) → String
+  | .error e => "EXC:" ++ showErr e
+  | .ok none => "None"
+  | .ok (some l) => "[" ++ String.intercalate "," (l.map (·.fmt.name)) ++ "]"
+
+def showPOut : POut → String
+  | .done => "done" | .raised e => "raised:" ++ showErr e | .mismatch => "mismatch"
+
+/-- wrapper with injected faults: inspector `name` raises on its `k`-th feed (0-based) without
+    touching its state -/
+structure FI where
+  insp : Insp
+  feeds : Nat
+  log : List Nat          -- indices (global chunk numbers) of the chunks this inspector was handed
+
+def faultOps (faults : List (String × Nat)) (chunkNo : Nat) : IOps FI where
+  name s := s.insp.fmt.name
+  eat s c :=
+    if faults.contains (s.insp.fmt.name, s.feeds) then
+      ({ s with feeds := s.feeds + 1, log := s.log ++ [chunkNo] }, some .runtime)
+    else
+      let (i, e) := eatChunk s.insp c
+      ({ insp := i, feeds := s.feeds + 1, log := s.log ++ [chunkNo] }, e)
+  complete s := s.insp.complete
+  fmatch s := formatMatch s.insp
+  finish s := { s with insp := s.insp.finish }
+
+def faultPipe (faults : List (String × Nat)) :
+    Wrap FI → List Bytes → Nat → List Bytes → (List Bytes × Wrap FI × POut)
+  | w, [], _, out => (out.reverse, w.finish (faultOps faults 0), .done)
+  | w, c :: cs, n, out =>
+    match w.processChunk (faultOps faults n) c with
+    | (w', .done) => faultPipe faults w' cs (n + 1) (c :: out)
+    | (w', o) => (out.reverse, w', o)
+
+def parseFaults (s : String) : Option (List (String × Nat)) :=
+  if s = "-" then some [] else
+  (s.splitOn ",").mapM (fun p => match p.splitOn "@" with
+    | [n, k] => k.toNat?.map (fun k => (n, k))
+    | _ => none)
+
+def parseNames (s : String) : List String := if s = "-" then [] else s.splitOn ","
+
+def handle : List String → String
+  -- insp <fmt> <content> <sizes> <trace 0|1>
+  | ["insp", f, content, sizes, tr] =>
+    match Fmt.ofName? f, parseContent content, parseNats sizes with
+    | some f, some b, some sz =>
+      match Insp.init f with
+      | none => "init-error"
+      | some s0 =>
+        let chunks := cut b sz
+        if tr = "1" then
+          let (s1, e, trace) := feedTrace s0 chunks []
+          String.intercalate "|" trace ++ "\t" ++ showState s1.finish ++ "\t" ++ showVerdict s1.finish e
+        else
+          let (s1, e) := runChunks s0 chunks
+          showState s1 ++ "\t" ++ showVerdict s1 e
+    | _, _, _ => "bad-request"
+  -- wrap <allowed> <expected> <content> <sizes>: decision after every read, final per-inspector verdicts
+  | ["wrap", allowed, expected, content, sizes] =>
+    match parseContent content, parseNats sizes with
+    | some b, some sz =>
+      let w0 := Wrap.mk' (if expected = "-" then none else some expected) (parseNames allowed)
+      let rec go (w : Wrap Insp) (cs : List Bytes) (acc : List String) : Wrap Insp × POut × List String :=
+        match cs with
+        | [] => (w, .done, acc.reverse)
+        | c :: cs =>
+          match w.processChunk realOps c with
+          | (w', .done) => go w' cs (s!"{showFmtRes (w'.format realOps)}/{showFmtsRes (w'.formats realOps)}" :: acc)
+          | (w', o) => (w', o, acc.reverse)
+      let (w1, o, decisions) := go w0 (cut b sz) []
+      let w2 := w1.finish realOps
+      String.intercalate "|" decisions ++ "\t" ++ showPOut o ++ "\t" ++
+        s!"{showFmtRes (w2.format realOps)}/{showFmtsRes (w2.formats realOps)}" ++ "\t" ++
+        String.intercalate ";" (w2.insps.map (fun i =>
+          i.fmt.name ++ (if w2.errored.contains i.fmt.name then "!" else "") ++ " " ++ showVerdict i none))
+    | _, _ => "bad-request"
+  -- fault <allowed> <expected> <content> <sizes> <faults name@k,...>
+  | ["fault", allowed, expected, content, sizes, faults] =>
+    match parseContent content, parseNats sizes, parseFaults faults with
+    | some b, some sz, some fl =>
+      let w0 := Wrap.mk' (if expected = "-" then none else some expected) (parseNames allowed)
+      let wf : Wrap FI := { insps := w0.insps.map (fun i => { insp := i, feeds := 0, log := [] }),
+                            errored := [], expected := w0.expected, finished := false }
+      let (out, w1, o) := faultPipe fl wf (cut b sz) 0 []
+      s!"out={(out.map (·.length)).sum}:{adler32 out.flatten} chunks={out.length} end={showPOut o}" ++ "\t" ++
+        String.intercalate ";" (w1.insps.map (fun i =>
+          s!"{i.insp.fmt.name}{if w1.errored.contains i.insp.fmt.name then "!" else ""}:{String.intercalate "," (i.log.map toString)}"))
+    | _, _, _ => "bad-request"
+  -- detect <content>: detect_file_format + CLI exit status
+  | ["detect", content] =>
+    match parseContent content with
+    | some b =>
+      match detectFileFormat b with
+      | .error e => s!"EXC:{showErr e}\texit={cliExit b}"
+      | .ok i => s!"{i.fmt.name} {showVerdict i none}\texit={cliExit b}"
+    | none => "bad-request"
+  -- region <offset> <length> <min|N> <isEnd> <content> <sizes>: the capture engine alone
+  | ["region", off, len, ml, isEnd, content, sizes] =>
+    match off.toNat?, len.toNat?, parseContent content, parseNats sizes with
+    | some off, some len, some b, some sz =>
+      let mlv := if ml = "N" then none else ml.toNat?
+      let r0 : Region := { rid := 0, offset := off, length := len, minLength := mlv, data := [],
+                           isEnd := isEnd = "1", endDone := false }
+      let r := (r0.feed 0 (cut b sz)).finish
+      s!"{r.offset}:{r.length}:{hex r.data}:{showB r.complete}"
+    | _, _, _, _ => "bad-request"
+  | _ => "bad-request"
+
+def main : IO Unit := serve handle
